@@ -3,7 +3,6 @@
 // linked in and register themselves.
 #include "c06.hpp"
 #include "c10.hpp"
-#include "c04.hpp"
 #include "c03.hpp"
 
 namespace sbepp
